@@ -15,7 +15,9 @@
 (* another layout, another constant value, another port-ID, a faulty       *)
 (* definition, a deprecated one), and where the files are: "same" - one    *)
 (* directory whose files are rewritten in place between the calls - or     *)
-(* "copy" - a directory of its own per variant.                            *)
+(* "copy" - a directory of its own per variant; and how the directory      *)
+(* arguments are passed (args): fresh objects per call, or list objects    *)
+(* that the calls of the history share.                                    *)
 (* case = the history of calls; out[n] = what call n must observe: the     *)
 (* observation of that call ALONE (the harness obtains Alone(c) from a     *)
 (* fresh process per distinct call and compares every step of every        *)
@@ -30,8 +32,13 @@ vars == <<ph, case, out>>
 
 Apis == {"namespace", "files", "files-dep-first"}
 \* the lookup namespace is of the same variant as the target namespace, or of variant 2 / 3 (another layout / constant)
-Calls == { [api |-> a, var |-> v, dep |-> d, loc |-> l] : a \in Apis, v \in Variants, d \in Variants, l \in Locs }
-         \cap { c \in [api : Apis, var : Variants, dep : Variants, loc : Locs] : c.dep = c.var \/ (c.dep \in {2, 3} /\ c.var \in {1, 4}) }
+\* args: "fresh" - every call builds the objects it passes as directory arguments; "shared" - the calls of the history that
+\* name the same lookup directory pass ONE list object (an application's module-level LOOKUP_DIRS = [Path(...)]); only
+\* distinguishable where the variants live in directories of their own
+ArgForms == {"fresh", "shared"}
+Calls == { c \in [api : Apis, var : Variants, dep : Variants, loc : Locs, args : ArgForms] :
+             /\ c.dep = c.var \/ (c.dep \in {2, 3} /\ c.var \in {1, 4})
+             /\ c.args = "shared" => c.loc = "copy" }
 \* the observation of a call in a fresh process is identified by the call itself
 Alone(c) == c
 Init == ph = 0 /\ case = <<>> /\ out = <<>>
